@@ -239,6 +239,9 @@ func storeHang(rep *simrt.Report) (string, bool) {
 		if !strings.Contains(g, "simrt.(*Sim).taskMain") {
 			continue
 		}
+		if strings.Contains(g, "simrt.(*Sim).park") || strings.Contains(g, "simrt.BlockOn") {
+			continue // parked by the scheduler at a decision point (e.g. inside a replay callback): waiting for its turn, not for the store
+		}
 		for _, marker := range []string{"github.com/jilio/ebu/stores/sqlite.(*SQLiteStore).", "github.com/jilio/ebu/stores/durablestream.(*Store)."} {
 			if i := strings.Index(g, marker); i >= 0 {
 				line := g[i:]
